@@ -70,10 +70,8 @@ func (s scope) String() string {
 }
 
 func completeScopes() []scope {
-	if evid.Thorough() {
-		return []scope{{2, 2, -1}, {3, 1, -1}}
-	}
-	return []scope{{2, 2, -1}}
+	// measured (schedules): 2x1: 37, 2x2: 15 296, 3x1: 13 698; 2x3 is > 10^7 (bounded instead)
+	return []scope{{2, 2, -1}, {3, 1, -1}}
 }
 
 func inComplete(prog []string) bool {
@@ -93,9 +91,11 @@ func inComplete(prog []string) bool {
 
 func boundedScopes() []scope {
 	if evid.Thorough() {
-		return []scope{{2, 3, 3}, {3, 2, 3}, {3, 3, 2}, {4, 1, 3}, {4, 2, 2}}
+		// measured: 2x3<=5: 1.2e5, 3x2<=4: 7.0e5, 3x3<=3: 6.4e6, 4x2<=3: 1.5e7
+		return []scope{{2, 3, 6}, {3, 2, 4}, {4, 1, 4}, {3, 3, 3}, {4, 2, 3}, {4, 3, 2}}
 	}
-	return []scope{{3, 2, 2}, {2, 3, 2}, {4, 1, 2}}
+	// measured: 2x3<=4: 5.2e4, 3x2<=3: 1.5e5, 4x1<=3: 4.8e4, 3x3<=2: 7.4e5, 4x2<=2: 1.4e6
+	return []scope{{2, 3, 4}, {3, 2, 3}, {4, 1, 3}, {3, 3, 2}, {4, 2, 2}}
 }
 
 const prefixDepth = 6
